@@ -206,6 +206,25 @@ pub fn wsdl_states(depth2: bool) -> Vec<State> {
     // more operations
     specs.push(("operations=2".into(), vec![base.clone(), OpSpec::simple("PutThing")], svc.into(), addr.into()));
     specs.push(("operations=3".into(), vec![base.clone(), OpSpec::simple("PutThing"), OpSpec { output: false, ..OpSpec::simple("DropThing") }], svc.into(), addr.into()));
+    // the complete shape product {input only, input+output} x {0, 2 input headers} x {0, 1 output
+    // headers}: each shape alone and all of them in one service
+    {
+        let mut all = vec![];
+        for output in [false, true] {
+            for in_headers in [0usize, 2] {
+                for out_headers in [0usize, 1] {
+                    if !output && out_headers > 0 {
+                        continue;
+                    }
+                    let name = format!("Shape{}{}{}", if output { "Io" } else { "OneWay" }, in_headers, out_headers);
+                    let o = OpSpec { output, in_headers, out_headers, ..OpSpec::simple(&name) };
+                    specs.push((format!("shape output={output} input-headers={in_headers} output-headers={out_headers}"), vec![o.clone()], svc.into(), addr.into()));
+                    all.push(o);
+                }
+            }
+        }
+        specs.push(("all-shapes-in-one-service".into(), all, svc.into(), addr.into()));
+    }
     // service name styles and addresses
     for (st, n) in [("camel", "thingService"), ("snake", "thing_service"), ("kebab", "thing-service"), ("upper", "THING_SERVICE")] {
         specs.push((format!("service-name-style={st}"), vec![base.clone()], n.into(), addr.into()));
